@@ -82,6 +82,8 @@ inductive TOp
   | endFlash (ai signer : Nat)
   | startLiq (ai receiver : Nat) (recordOk : Bool)
   | endLiq (ai signer : Nat) (recordOk walletOk : Bool) (feeMax : Int)   -- feeMax: the fee state's liquidation_max_fee
+  | startDelev (ai signer : Nat) (recordOk : Bool)                       -- start_deleverage: `signer` is passed as risk_admin
+  | endDelev (ai signer : Nat) (recordOk : Bool)
 
 /-- is this instruction a top-level marginfi `lending_account_end_flashloan` whose first account is margin account `ai`?
     (accounts are identified by their place in the world, as the real introspection identifies them by their address) -/
@@ -124,7 +126,11 @@ def WState.setFlags (w : WState) (ai : Nat) (a : AcctV) (flags : Nat) : WState :
 `validate_instructions` as the start of a liquidation sees a transaction of the world machine (no compute-budget, refresh or
 record-init instructions are modelled, so "first after the whitelisted ones" is "first"): the first instruction is the single
 start; the last one is an end_liquidation; only start, end, withdraw and repay appear; the start is not the last instruction.
-Error codes in the order of the real checks (first / repeats, last, exclusive list, sanity). -/
+Error codes in the order of the real checks (first / repeats, last, exclusive list, sanity).
+
+The forced deleverage of the risk admin (`start_deleverage` … `end_deleverage`) is the same bracket with its own pair of
+instructions, no health condition at the start, both markers (ACCOUNT_IN_DELEVERAGE, which makes `World.withdraw` meter
+the daily window, and ACCOUNT_IN_RECEIVERSHIP) and only "health not worse" at the end. -/
 
 def isStartLiq : TOp → Bool
   | .startLiq _ _ _ => true
@@ -149,6 +155,34 @@ def liqShape (tx : List TOp) (cur : Nat) : Res Unit :=
     else if rest.any isStartLiq then .error (.err E.StartRepeats)
     else if !((tx.getLast?).map isEndLiq).getD false then .error (.err E.EndNotLast)
     else if !tx.all liqAllowed then .error (.err E.ForbiddenIx)
+    else if cur < tx.length - 1 then .ok () else .error (.err E.StartNotFirst)
+
+/-! `validate_instructions` as `start_deleverage` calls it: the same rule with the deleverage pair as start and end (a
+start_liquidation / end_liquidation inside a deleverage bracket is not on the exclusive list, and the other way round). -/
+
+def isStartDelev : TOp → Bool
+  | .startDelev _ _ _ => true
+  | _ => false
+
+def isEndDelev : TOp → Bool
+  | .endDelev _ _ _ => true
+  | _ => false
+
+def delevAllowed : TOp → Bool
+  | .startDelev _ _ _ => true
+  | .endDelev _ _ _ => true
+  | .ix (.withdraw _ _ _ _ _ _) => true
+  | .ix (.repay _ _ _ _ _) => true
+  | _ => false
+
+def delevShape (tx : List TOp) (cur : Nat) : Res Unit :=
+  match tx with
+  | [] => .error .panic
+  | t0 :: rest =>
+    if !isStartDelev t0 then .error (.err E.StartNotFirst)
+    else if rest.any isStartDelev then .error (.err E.StartRepeats)
+    else if !((tx.getLast?).map isEndDelev).getD false then .error (.err E.EndNotLast)
+    else if !tx.all delevAllowed then .error (.err E.ForbiddenIx)
     else if cur < tx.length - 1 then .ok () else .error (.err E.StartNotFirst)
 
 def WState.rctx (w : WState) (a : AcctV) (recordOk : Bool) (receiver : Nat) (walletOk : Bool) (feeMax : Int) : RCtx :=
@@ -182,6 +216,21 @@ def WState.stepIn (w : WState) (tx : List TOp) (i : Nat) : TOp → Option WState
     match w.accts[ai]? with
     | some a =>
       match endLiquidation (w.rctx a recordOk signer walletOk feeMax) 1 with
+      | .ok o => some { w with accts := w.accts.set ai { a with flags := o.flags, recReceiver := 0 } }
+      | .error _ => none
+    | none => none
+
+  | .startDelev ai signer recordOk =>
+    match w.accts[ai]? with
+    | some a =>
+      match startDeleverage (w.rctx a recordOk signer true 0) (delevShape tx i) with
+      | .ok o => some { w with accts := w.accts.set ai { a with flags := o.flags, recReceiver := o.receiver, recCache := o.cache } }
+      | .error _ => none
+    | none => none
+  | .endDelev ai signer recordOk =>
+    match w.accts[ai]? with
+    | some a =>
+      match endDeleverage (w.rctx a recordOk signer true 0) 1 with
       | .ok o => some { w with accts := w.accts.set ai { a with flags := o.flags, recReceiver := 0 } }
       | .error _ => none
     | none => none
